@@ -7,6 +7,8 @@
 #include <atomic>
 #include <functional>
 #include <string>
+#include <utility>
+#include <vector>
 
 namespace rkverif {
   namespace c02w {
@@ -116,8 +118,76 @@ namespace rkverif {
       rkcommon::tasking::detail::AsyncTaskImpl<std::function<void()>> impl;
     };
 
+    // ---- R-C02-6 (iv): a task may become reachable by a completion-guarded delete only after it was scheduled
+    static std::vector<Task *> g_outstanding;
+
+    inline void publishThenSchedule(Task *task)
+    {
+      g_outstanding.push_back(task);  // running count still 0: looks complete to a concurrent sweeper
+      rkcommon::tasking::detail::scheduleTaskInternal(task);
+    }
+
+    inline void scheduleThenPublish(Task *task)
+    {
+      rkcommon::tasking::detail::scheduleTaskInternal(task);
+      std::vector<Task *> mine;
+      mine.push_back(task);
+      g_outstanding.insert(g_outstanding.end(), mine.begin(), mine.end());
+    }
+
+    inline void sweepThenSchedule(Task *task)
+    {
+      std::vector<Task *> mine;
+      mine.push_back(task);
+      for (Task *t : mine) {
+        if (t->GetIsComplete())
+          delete t;
+      }
+      rkcommon::tasking::detail::scheduleTaskInternal(task);
+    }
+
+    // ---- R-C02-3: outside the closure the result member is only read
+    struct MovesOut
+    {
+      MovesOut() : impl([this]() { result = std::string("done"); done = true; }) {}
+      ~MovesOut()
+      {
+        impl.wait();
+      }
+      std::string get()
+      {
+        impl.wait();
+        return std::move(result);  // a second get() returns a moved-from string
+      }
+      std::atomic<bool> done{false};
+      std::string result;
+      rkcommon::tasking::detail::AsyncTaskImpl<std::function<void()>> impl;
+    };
+
+    struct Copies
+    {
+      Copies() : impl([this]() { result = std::string("done"); done = true; }) {}
+      ~Copies()
+      {
+        impl.wait();
+      }
+      std::string get()
+      {
+        impl.wait();
+        const std::string &r = result;
+        return r;
+      }
+      std::atomic<bool> done{false};
+      std::string result;
+      rkcommon::tasking::detail::AsyncTaskImpl<std::function<void()>> impl;
+    };
+
     inline void instantiate()
     {
+      MovesOut m;
+      Copies k;
+      (void)m.get();
+      (void)k.get();
       StartsTooEarly a;
       StartsLast b;
       NeverWaits c;
